@@ -112,6 +112,7 @@ def verify_block(ex, fi, c, name, label=None):
         stmts = find_block(fi.node, spec['where'])
         st = initial_state(ex, fi, c, cx)
         for n, tys in ltypes.items():
+            n = (ex.rename or {}).get(n, n)            # (a renamed local is bound under its new name)
             v = ex.fresh(ex.tenv.parse(tys), n)
             st = st.setvar(n, v)
             for fact in ex.type_facts(v):
@@ -173,8 +174,48 @@ def block_frame_check(ex, st0, s_end, spec, cx, lab):
         ex.oblige(s_end, f'{lab}/frame[{key}]', ok, kind='frame')
 
 
+_BASE_LOCALS = []
+
+
+def detect_rename(ex, fi, c):
+    """{old: new} if, compared with the committed baseline (baseline/locals.json), exactly one local of the function is
+    gone and exactly one is new, and the contract mentions the one that is gone: a pure rename."""
+    import json
+    import os
+    import re
+    from .stmts import assigned_names
+    if not _BASE_LOCALS:
+        pth = os.path.join(os.path.dirname(os.path.dirname(os.path.abspath(__file__))), 'baseline', 'locals.json')
+        try:
+            _BASE_LOCALS.append(json.load(open(pth)))
+        except Exception:  # noqa
+            _BASE_LOCALS.append({})
+    base = _BASE_LOCALS[0].get(fi.key)
+    if not base:
+        return {}
+    now = assigned_names(fi.node.body) | set(fi.params)
+    gone, new = set(base) - now, now - set(base)
+    if len(gone) != 1 or len(new) != 1:
+        return {}
+    g, n = next(iter(gone)), next(iter(new))
+    texts = list(c.requires) + list(c.ensures) + [str(v) for v in c.raises.values()] + [str(v) for v in c.may_raise.values()] \
+        + list(c.modifies) + list(c.locals)
+    for sp in (c.loops or {}).values():
+        texts += list(sp.get('inv', [])) + list(sp.get('modifies', [])) + list(sp.get('types', {}))
+    for bs in (c.blocks or {}).values():
+        for k_ in ('requires', 'ensures', 'on_return', 'modifies'):
+            texts += list(bs.get(k_, []))
+        texts += list(bs.get('locals', {})) + [str(v) for v in bs.get('raises', {}).values()]
+    if not any(re.search(r'\b' + re.escape(g) + r'\b', t) for t in texts):
+        return {}
+    ex.notes.append(f'{fi.key.split(":")[1]}: local `{g}` was renamed to `{n}`; the contract is read with the new name')
+    return {g: n}
+
+
 def verify_function(ex, fi, c, label=None, chunk=None, block=None):
     """Returns (obligations, error or None).  With a case split the body is executed once per case."""
+    ex.cur_fi = fi
+    ex.rename = detect_rename(ex, fi, c)
     if block is not None:
         return verify_block(ex, fi, c, block, label)
     allobs = []
